@@ -324,7 +324,16 @@ func (c *svcDiscoveryClient) takePending() (subscribed, unsubscribed []string) {
 	pending := c.pending
 	c.pending = nil
 	c.Unlock()
-	for _, ch := range pending {
+	// only the last change of a service counts: a request that named a service in
+	// both lists would leave it to the server which of the two wins.
+	last := make(map[string]int, len(pending))
+	for i, ch := range pending {
+		last[ch.svcName] = i
+	}
+	for i, ch := range pending {
+		if last[ch.svcName] != i {
+			continue
+		}
 		if ch.unsub {
 			unsubscribed = append(unsubscribed, ch.svcName)
 		} else {
